@@ -44,7 +44,7 @@ def explore(ctx):
         lines += ["EXPAND 0 6d " + common.hexs(u) for u in uses]
         lines += ["EVAL 0 " + common.hexs(u) for u in uses[:6]]
         cases.append({"lines": lines, "definition": definition, "uses": uses, "kind": "small"})
-    n = 1200 if ctx.quick else 40000
+    n = 5000 if ctx.quick else 40000
     mg = gen.MacroGen(ctx.rng)
     for k in range(n):
         definition, uses = mg.macro_case(ctx.rng.randint(1, 3), 4)
